@@ -250,7 +250,7 @@ theorem buildLevel_ok (p : Params K) (pv : p.Valid) (sw : StrictWeak p.lt) (h : 
   have hi4 := pv.inner4
   obtain ⟨hok, hc2⟩ := hl
   have hcp := ceil_parts (p.innerMax + 1) nodes.length (p.innerMin + 1) (by omega)
-    (by simp [Params.innerMin]; omega)
+    (by simp [Params.innerMin, Gen.innerSlotmin]; omega)
   unfold buildLevel
   simp only
   generalize hP : (nodes.length + (p.innerMax + 1) - 1) / (p.innerMax + 1) = P at hcp
@@ -282,7 +282,7 @@ theorem buildLevel_ok (p : Params K) (pv : p.Valid) (sw : StrictWeak p.lt) (h : 
     · -- fewer parents than children
       rw [l5]
       have h1 : (p.innerMin + 1) * P ≤ nodes.length := c2 hP2
-      have hmin : 1 ≤ p.innerMin := by simp [Params.innerMin]; omega
+      have hmin : 1 ≤ p.innerMin := by simp [Params.innerMin, Gen.innerSlotmin]; omega
       have h2 : 2 * P ≤ (p.innerMin + 1) * P := Nat.mul_le_mul_right P (by omega)
       omega
     · left
@@ -392,8 +392,8 @@ theorem bulkLoad_ok (p : Params K) (pv : p.Valid) (sw : StrictWeak p.lt) (es : L
     ∃ t l, bulkLoad p es = some (t, l) ∧ TreeInv p t ∧ t.toList = es ∧
       l.leafAlloc = t.nLeaves ∧ l.innerAlloc = t.nInner ∧ l.leafFree = 0 ∧ l.innerFree = 0 := by
   have hl4 := pv.leaf4
-  have hlmin : 2 ≤ p.leafMin := by simp [Params.leafMin]; omega
-  have hcp := ceil_parts p.leafMax es.length p.leafMin (by omega) (by simp [Params.leafMin]; omega)
+  have hlmin : 2 ≤ p.leafMin := by simp [Params.leafMin, Gen.leafSlotmin]; omega
+  have hcp := ceil_parts p.leafMax es.length p.leafMin (by omega) (by simp [Params.leafMin, Gen.leafSlotmin]; omega)
   unfold bulkLoad
   simp only
   generalize hP : (es.length + p.leafMax - 1) / p.leafMax = P at hcp
